@@ -8,5 +8,5 @@ import (
 
 func TestReplay(t *testing.T) {
 	Setup()
-	vrt.ReplayMain(map[string]func(){"Harness_form": Harness_form, "Harness_quasi": Harness_quasi, "Harness_call": Harness_call})
+	vrt.ReplayMain(map[string]func(){"Harness_form": Harness_form, "Harness_quasi": Harness_quasi, "Harness_call": Harness_call, "Harness_concurrent": Harness_concurrent, "Harness_cancelled": Harness_cancelled})
 }
